@@ -146,21 +146,21 @@ func TestVfIface(t *testing.T) {
 		}
 		fIface := 0
 		o := &packetScanCmdOpts{}
-		if sc.FIface > 0 {
-			ifc, err := net.InterfaceByName(names[sc.FIface-1]) // as parseRawOptions does for --iface
-			if err != nil {
-				t.Fatal(err)
-			}
-			o.iface = ifc
-			fIface = idx[ifc.Name]
-		}
 		flagIP := net.IPv4(10, 9, 9, 9)
 		flagMAC := net.HardwareAddr{2, 9, 9, 9, 9, 9}
-		if sc.FSrcIP {
-			o.srcIP = flagIP
+		// the flags go through the command's own parseRawOptions (--iface by name, --srcmac as text); --srcip is a pflag IP value
+		if sc.FIface > 0 {
+			o.rawInterface = names[sc.FIface-1]
+			fIface = idx[names[sc.FIface-1]]
 		}
 		if sc.FSrcMAC {
-			o.srcMAC = flagMAC
+			o.rawSrcMAC = flagMAC.String()
+		}
+		if err := o.parseRawOptions(); err != nil {
+			t.Fatalf("parseRawOptions: %v", err)
+		}
+		if sc.FSrcIP {
+			o.srcIP = flagIP
 		}
 		var dst *net.IPNet
 		if sc.Target != "none" {
